@@ -408,6 +408,101 @@ stub.send(CALLARGS)
 '''
 
 
+def translate_provide(fdef):
+    """BasicAuthProvider.provide translated (not template-matched): locals may have any name, statements that bind a
+    local are inlined.  Understood: `x = self._config.SERVICE_USERNAME / SERVICE_PASSWORD` (optional strings),
+    `if a is not None and b is not None:`, str `+`, str constants, `s.encode('utf-8')`, `base64.b64encode(bytes)`,
+    `b.decode('utf-8' | 'ascii')` of base64 output, `return [(k, v), ...]`, `return []`."""
+    CANON = {'self._config.SERVICE_USERNAME': 'username', 'self._config.SERVICE_PASSWORD': 'password'}
+    env = {}                     # python local -> (kind, lean)   kind in optstr / str / bytes / b64
+
+    def ex(n):
+        text = ast.unparse(n)
+        if text in CANON:
+            return 'optstr', CANON[text]
+        if isinstance(n, ast.Name):
+            if n.id not in env:
+                raise Untranslatable(f'provide: unknown name {n.id}')
+            return env[n.id]
+        if isinstance(n, ast.Constant) and isinstance(n.value, str):
+            return 'str', lean_str(n.value)
+        if isinstance(n, ast.BinOp) and isinstance(n.op, ast.Add):
+            (ka, a), (kb, b) = ex(n.left), ex(n.right)
+            if ka == kb == 'str':
+                return 'str', f'{a} ++ {b}'
+            raise Untranslatable(f'provide: `{text}` adds {ka} and {kb}')
+        if isinstance(n, ast.Call) and isinstance(n.func, ast.Attribute) and n.func.attr in ('encode', 'decode') \
+                and len(n.args) <= 1 and not n.keywords:
+            codec = n.args[0].value.lower().replace('_', '-') if n.args and isinstance(n.args[0], ast.Constant) else 'utf-8'
+            k, a = ex(n.func.value)
+            if n.func.attr == 'encode' and k == 'str' and codec in ('utf-8', 'utf8'):
+                return 'bytes', f'utf8 ({a})'
+            if n.func.attr == 'decode' and k == 'b64' and codec in ('utf-8', 'utf8', 'ascii', 'us-ascii', 'latin-1'):
+                return 'str', a              # base64 output is ASCII: every one of these codecs reads it the same
+            raise Untranslatable(f'provide: `{text}` ({n.func.attr} of {k} with {codec})')
+        if isinstance(n, ast.Call) and ast.unparse(n.func) in ('base64.b64encode', 'b64encode', 'base64.standard_b64encode') \
+                and len(n.args) == 1 and not n.keywords:
+            k, a = ex(n.args[0])
+            if k != 'bytes':
+                raise Untranslatable(f'provide: b64encode of {k}')
+            return 'b64', f'b64encode ({a})'
+        raise Untranslatable(f'provide: expression `{text}`')
+
+    def ret(n):
+        if not isinstance(n, ast.List):
+            raise Untranslatable(f'provide: returns `{ast.unparse(n)}`')
+        items = []
+        for e in n.elts:
+            if not (isinstance(e, ast.Tuple) and len(e.elts) == 2):
+                raise Untranslatable('provide: metadata entries must be pairs')
+            (ka, a), (kb, b) = ex(e.elts[0]), ex(e.elts[1])
+            if ka != 'str' or kb != 'str':
+                raise Untranslatable(f'provide: metadata pair of {ka}, {kb}')
+            items.append(f'({a}, {b})')
+        return '[' + ', '.join(items) + ']'
+
+    def block(stmts, narrowed):
+        stmts = [x for x in stmts if not (isinstance(x, ast.Expr) and isinstance(x.value, ast.Constant))]
+        if not stmts:
+            raise Untranslatable('provide: a path does not return')
+        st, rest = stmts[0], stmts[1:]
+        if isinstance(st, ast.Assign) and len(st.targets) == 1 and isinstance(st.targets[0], ast.Name):
+            env[st.targets[0].id] = ex(st.value)
+            return block(rest, narrowed)
+        if isinstance(st, ast.Return) and st.value is not None:
+            return ret(st.value)
+        if isinstance(st, ast.If) and not st.orelse:
+            conj = st.test.values if isinstance(st.test, ast.BoolOp) and isinstance(st.test.op, ast.And) else [st.test]
+            names = []
+            for c in conj:
+                ok = (isinstance(c, ast.Compare) and len(c.ops) == 1 and isinstance(c.ops[0], ast.IsNot)
+                      and isinstance(c.comparators[0], ast.Constant) and c.comparators[0].value is None)
+                if not ok:
+                    raise Untranslatable(f'provide: condition `{ast.unparse(st.test)}`')
+                k, a = ex(c.left)
+                if k != 'optstr' or a not in ('username', 'password'):
+                    raise Untranslatable(f'provide: `{ast.unparse(c)}` does not test a credential')
+                names.append((ast.unparse(c.left), a))
+            if sorted(a for _, a in names) != ['password', 'username'] or narrowed:
+                raise Untranslatable(f'provide: expected one test of both credentials, got `{ast.unparse(st.test)}`')
+            saved = dict(env)
+            for src, a in names:                      # inside the branch the credential is a str
+                for loc, (k, v) in list(env.items()):
+                    if k == 'optstr' and v == a:
+                        env[loc] = ('str', a)
+            CANON_STR = {src: a for src, a in names if src in CANON}
+            then = block(st.body, True)
+            env.clear()
+            env.update(saved)
+            other = block(rest, narrowed)
+            return ('match username, password with\n  | some username, some password =>\n    ' + then +
+                    '\n  | _, _ => ' + other)
+        raise Untranslatable(f'provide: statement `{ast.unparse(st)[:60]}`')
+
+    return ('def basicProvide (username password : Option String) : List (String × String) :=\n  '
+            + block(list(fdef.body), False) + '\n')
+
+
 def stub_call(fdef, method):
     """the `stub.<method>(request, metadata=...)` call inside fdef: (request expr, metadata expr or None)"""
     calls = [c for c in ast.walk(fdef) if isinstance(c, ast.Call) and ast.unparse(c.func) == f'stub.{method}']
@@ -424,11 +519,56 @@ def opt_str(s):
     return 'none' if s is None else f'(some {lean_str(s)})'
 
 
+TRIGGER = 'src/deep/api/tracepoint/trigger.py'
+
+
+def line_number_model(tp_tree, Translator):
+    """where a tracepoint's `line_no` comes from: LocationAction.tracepoint passes the location's line to TracePointConfig,
+    whose constructor stores it and whose `line_no` property reports it; FunctionLocation.line is a constant"""
+    init = find_def(tp_tree, 'TracePointConfig.__init__')
+    params = [a.arg for a in init.args.args]
+    if params[:4] != ['self', 'tp_id', 'path', 'line_no']:
+        raise Untranslatable(f'TracePointConfig.__init__ parameters changed: {params}')
+    stores = [x for x in ast.walk(init) if isinstance(x, ast.Assign) and ast.unparse(x.targets[0]) == 'self._line_no']
+    if len(stores) != 1:
+        raise Untranslatable('TracePointConfig.__init__: expected exactly one assignment to self._line_no')
+    tr = Translator(subst={'self._line_no': 'stored'},
+                    calls={'max': lambda a: f'(max {a[0]} {a[1]})', 'min': lambda a: f'(min {a[0]} {a[1]})'})
+    stored = tr.expr(stores[0].value)
+    prop = find_def(tp_tree, 'TracePointConfig.line_no')
+    body = [x for x in prop.body if not (isinstance(x, ast.Expr) and isinstance(x.value, ast.Constant))]
+    reported = tr.block(body, None)
+    trig = load(TRIGGER)
+    fl = find_def(trig, 'FunctionLocation.line')
+    fbody = [x for x in fl.body if not (isinstance(x, ast.Expr) and isinstance(x.value, ast.Constant))]
+    if len(fbody) != 1 or not isinstance(fbody[0], ast.Return):
+        raise Untranslatable('FunctionLocation.line is no longer a single return')
+    try:
+        fline = int(ast.literal_eval(fbody[0].value))
+    except Exception:
+        raise Untranslatable(f'FunctionLocation.line is not a constant: {ast.unparse(fbody[0].value)}')
+    tpp = find_def(trig, 'LocationAction.tracepoint')
+    ctor = [c for c in ast.walk(tpp) if isinstance(c, ast.Call) and ast.unparse(c.func) == 'TracePointConfig']
+    if len(ctor) != 1 or len(ctor[0].args) < 3 or ctor[0].keywords:
+        raise Untranslatable('LocationAction.tracepoint: expected one positional TracePointConfig(...) call')
+    line_arg = ast.unparse(ctor[0].args[2])
+    if not line_arg.endswith('location.line'):
+        raise Untranslatable(f'LocationAction.tracepoint: the line number passed to TracePointConfig is `{line_arg}`')
+    return ('/-- `TracePointConfig.__init__`: what is stored for the `line_no` argument -/\n'
+            f'def tracepointStoredLine (line_no : Int) : Int := {stored}\n\n'
+            '/-- the `TracePointConfig.line_no` property (what `__convert_tracepoint` reads) -/\n'
+            'def tracepointLineNo (stored : Int) : Int :=\n' + textwrap.indent(reported, '  ') + '\n\n'
+            '/-- `FunctionLocation.line`: a method tracepoint has no line -/\n'
+            f'def functionLocationLine : Int := ({fline} : Int)\n\n'
+            '/-- `LocationAction.tracepoint`: the line handed to `TracePointConfig(...)` -/\n'
+            f'def tracepointLineSource : String := {lean_str(line_arg)}\n')
+
+
 def generate():
     push = load(PUSH)
     grpc = load(GRPC)
     parts = [header('snapshot -> protobuf conversion, auth metadata (C08)',
-                    [PUSH, GRPC, PUSHSVC, POLL, GRPCSVC, AUTH, SNAP, TPCFG]),
+                    [PUSH, GRPC, PUSHSVC, POLL, GRPCSVC, AUTH, SNAP, TPCFG, TRIGGER]),
              'import DeepModel.Model.WireBase\n', 'namespace Extracted.Wire\nopen _root_.Wire\n']
 
     # ---- source classes ----------------------------------------------------------------------------------------
@@ -462,6 +602,7 @@ def generate():
     parts.append('/-- `EventSnapshot.complete`: the duration from the time stamp of the hit (`ts`) and the clock reading at\n'
                  '    completion (`now`, `time_ns()`) -/\n'
                  f'def completeDuration (now ts : Int) : Int := {trc.expr(cbody[0].value)}\n')
+    parts.append(line_number_model(tp_tree, trc.__class__))
     parts.append('/-- the watch sources the agent writes (eventsnapshot.py WATCH_SOURCE_*) -/\n'
                  'def watchSources : List String := [' + ', '.join(lean_str(s) for s in sources) + ']\n')
 
@@ -647,15 +788,18 @@ def generate():
         raise Untranslatable('AuthProvider.get_provider: "no provider" test changed')
     parts.append('/-- `get_provider`: no provider when SERVICE_AUTH_PROVIDER is None or "" -/\n'
                  'def noProvider (name : Option String) : Bool := name.isNone || name == some ""\n')
+    # what follows the "no provider" test: how the class is loaded.  Nothing here catches an exception, so a name that
+    # cannot be loaded (no dot: ValueError from the unpacking, unknown module: ModuleNotFoundError, unknown attribute:
+    # AttributeError, not callable / abstract: TypeError) propagates out of get_provider -> _build_metadata -> metadata()
+    idx = gp.body.index(first[0])
+    tail = [x for x in gp.body[idx + 1:]]
+    if any(isinstance(x, (ast.Try, ast.With)) for t in tail for x in ast.walk(t)):
+        raise Untranslatable('AuthProvider.get_provider: the loading of the provider class is now guarded (try/with)')
+    parts.append('/-- `get_provider` after the "no provider" test: the statements that load and instantiate the class; none\n'
+                 '    of them is guarded, an exception of any of them propagates to `GRPCService.metadata()` -/\n'
+                 'def getProviderLoad : List String := [' + ', '.join(lean_str(ast.unparse(x).split('\n')[0]) for x in tail)
+                 + ']\n')
     pv = find_def(au, 'BasicAuthProvider.provide')
-    if not same_shape(pv, PROVIDE_TEMPLATE):
-        raise Untranslatable('BasicAuthProvider.provide changed shape')
-    parts.append('/-- BasicAuthProvider.provide (template-matched translation) -/\n'
-                 'def basicProvide (username password : Option String) : List (String × String) :=\n'
-                 '  match username, password with\n'
-                 '  | some username, some password =>\n'
-                 '    let encode := b64encode (utf8 (username ++ ":" ++ password))\n'
-                 '    [("authorization", "Basic%20" ++ encode)]\n'
-                 '  | _, _ => []\n')
+    parts.append('/-- BasicAuthProvider.provide (translated) -/\n' + translate_provide(pv))
     parts.append('end Extracted.Wire\n')
     return '\n'.join(parts)
